@@ -25,7 +25,8 @@ PROFILES = {
     "C10": {"g1": 0.9, "w": {"addlinks": 8, "batch": 5, "addpage": 5, "create": 3}, "r": {"paginatelinks": 8, "helpers": 2}},
     "C11": {"w": {"reopen": 4, "clear": 1.2}, "read_rate": 0.7},
     "C12": {"g1": 0.9, "init_rules": 0.5, "w": {"create": 5, "delete": 2, "reopen": 2, "addrule": 2, "clear": 0.6}, "r": {"global": 4}},
-    "C13": {"g1": 0.9, "init_rules": 0.6, "w": {"create": 6, "addprefix": 3, "moveprefix": 2, "addrule": 3, "addlinks": 6, "batch": 3}, "r": {"hierarchy": 8}},
+    "C13": {"g1": 0.9, "init_rules": 0.6, "w": {"create": 6, "addprefix": 3, "moveprefix": 2, "addrule": 3, "addlinks": 6, "batch": 3}, "r": {"hierarchy": 4, "hierarchy_all": 6}, "read_rate": 0.8,
+            "defaults": ["domain", "path1", "path2", "subdomain"]},
     "C14": {"read_rate": 0.9, "init_rules": 0.7, "forget_rule": 0.5, "w": {"reopen": 2.5}},
     "C15": {"w": {"reopen": 0}},
     "C16": {},
